@@ -16,11 +16,11 @@ ASSUMPTIONS = ["strict reader mc/rp66.py", "reference model mc/model.py"]
 
 # every object kind that owns a set type of its own appears in the alphabet: the order of sets in the file depends on
 # which set types exist and when they were first touched (e.g. WELL-REFERENCE shares the record type of ORIGIN)
-C09_QUICK = hist.QUICK_EVENTS + ['WR', 'EQ', 'CP', 'ZNE']
+C09_QUICK = hist.QUICK_EVENTS + ['WR', 'EQ', 'CP', 'ZNE', 'OS']       # OS: an origin in a second, named ORIGIN set
 
 
 def _events(tier):
-    return C09_QUICK if tier == 'quick' else hist.THOROUGH_EVENTS
+    return C09_QUICK if tier == 'quick' else hist.THOROUGH_EVENTS + ['ZNE', 'OS']
 
 
 def depth(tier):
@@ -105,7 +105,7 @@ def run_case(case):
         if res['failed_at'] is not None or res['write'] != 'ok':
             viol.append(("C09:valid-history-rejected", f"{res['status'][-1] if res['failed_at'] is not None else res['write']} | {h}"))
             return Outcome('raised', viol, False)
-        tag = 'origin-first' if h and h[0] in ('O', 'O5') else 'origin-later' if ('O' in h or 'O5' in h) else 'origin-last'
+        tag = 'origin-first' if h and h[0] in ('O', 'O5', 'OS') else 'origin-later' if ('O' in h or 'O5' in h or 'OS' in h) else 'origin-last'
     try:
         lfs = R.split_logical_files(R.parse_physical(res['data']))
         m = M.Model(sp)
